@@ -115,6 +115,13 @@ pub(super) mod udp {
         }
     }
 
+    #[cfg(octo_verif)]
+    impl<'a, const N: usize> Client<'a, N> {
+        pub fn parts(&self) -> (CipherKind, &'a [u8], &'a [[u8; N]]) {
+            (self.kind, self.key, self.identity_keys)
+        }
+    }
+
     pub async fn new_plain_outbound<'a, const N: usize>(
         _: &Address,
         client: &Client<'a, N>,
